@@ -66,14 +66,14 @@ func init() {
 		mc.Register(&mc.ScenarioDef{Scn: scnCapBasic("acct-basic-"+pol, pol), Monitors: []mc.Monitor{monC03()}})
 	}
 	registerCheck(&CheckDef{Prop: "C01", Level: "model_checking", Technique: "explicit-state BFS over the real ClusterContext (bounded op sequences, canonical-state dedup)",
-		Quick:          []Run{{Scenario: "cap-basic-fair", Depth: 5, MapModes: []int{1}}, {Scenario: "cap-basic-binpacking", Depth: 4, MapModes: []int{1}}},
-		Thorough:       []Run{{Scenario: "cap-basic-fair", Depth: 7, MapModes: []int{1, 2}}, {Scenario: "cap-basic-binpacking", Depth: 7, MapModes: []int{1}}},
+		Quick:          []Run{{Scenario: "cap-basic-fair", Depth: 6, MapModes: []int{1}}, {Scenario: "cap-basic-binpacking", Depth: 6, MapModes: []int{1}}, {Scenario: "gang-cap-Soft", Depth: 6, MapModes: []int{1}}, {Scenario: "reserve-cap", Depth: 6, MapModes: []int{1}}},
+		Thorough:       []Run{{Scenario: "cap-basic-fair", Depth: 8, MapModes: []int{1, 2}}, {Scenario: "cap-basic-binpacking", Depth: 8, MapModes: []int{1}}, {Scenario: "gang-cap-Soft", Depth: 8, MapModes: []int{1, 2}}, {Scenario: "reserve-cap", Depth: 8, MapModes: []int{1, 2}}},
 		QuickBudget:    150 * time.Second,
 		ThoroughBudget: 40 * time.Minute,
 	})
 	registerCheck(&CheckDef{Prop: "C03", Level: "model_checking", Technique: "explicit-state BFS over the real ClusterContext (bounded op sequences, canonical-state dedup)",
-		Quick:          []Run{{Scenario: "acct-basic-fair", Depth: 5, MapModes: []int{1}}},
-		Thorough:       []Run{{Scenario: "acct-basic-fair", Depth: 7, MapModes: []int{1, 2}}},
+		Quick:          []Run{{Scenario: "acct-basic-fair", Depth: 6, MapModes: []int{1}}, {Scenario: "gang-acct-Soft", Depth: 6, MapModes: []int{1}}, {Scenario: "gang-acct-Hard", Depth: 6, MapModes: []int{1}}, {Scenario: "reserve-acct", Depth: 6, MapModes: []int{1}}},
+		Thorough:       []Run{{Scenario: "acct-basic-fair", Depth: 8, MapModes: []int{1, 2}}, {Scenario: "gang-acct-Soft", Depth: 8, MapModes: []int{1, 2}}, {Scenario: "gang-acct-Hard", Depth: 8, MapModes: []int{1}}, {Scenario: "reserve-acct", Depth: 8, MapModes: []int{1, 2}}},
 		QuickBudget:    150 * time.Second,
 		ThoroughBudget: 40 * time.Minute,
 	})
